@@ -186,7 +186,7 @@ class IPv4FlowSpec(NLRI):
                 1: 0x00,
                 2: 0x10,
                 4: 0x20,
-                6: 0x30
+                8: 0x30
             },
             'RES': 0x00,
             'LT': 0x04,
@@ -279,6 +279,9 @@ class IPv4FlowSpec(NLRI):
                 if len(hex_str) % 2 == 1:
                     hex_str = '0' + hex_str
                 value_hex = bytearray.fromhex(hex_str)
+                if len(value_hex) == 3 or 4 < len(value_hex) < 8:
+                    # the operator can only announce 1, 2, 4 or 8 octets
+                    value_hex = bytearray((4 if len(value_hex) == 3 else 8) - len(value_hex)) + value_hex
                 flag_dict['LEN'] = len(value_hex)
                 opt_flag_bin = cls.construct_operator_flag(flag_dict)
                 data_bin += struct.pack('!B', opt_flag_bin)
